@@ -25,7 +25,9 @@ EXTRA = {'C01-1': ['C03'], 'C19-3': ['C17'], 'C02-2': ['C03'],
          'C02-w7-1': ['C17'], 'C05-w7-1': ['C17'], 'C11-w7-1': ['C17'],
          'C10-w7-2': ['C11', 'C17'], 'C06-w7-1': ['C18'],
          'C07-w7-1': ['C14'], 'C07-w7-2': ['C10', 'C01'],
-         'C12-w7-2': ['C01'], 'C01-w7-1': ['C07']}
+         'C12-w7-2': ['C01'], 'C01-w7-1': ['C07'],
+         'C01-w8-1': ['C02'], 'C03-w8-2': ['C06'], 'C10-w8-2': ['C11'],
+         'C04-w8-1': ['C13'], 'C10-w8-1': ['C13']}
 jobs = int(sys.argv[1]) if len(sys.argv) > 1 else 3
 only = sys.argv[2] if len(sys.argv) > 2 else ''
 
